@@ -338,6 +338,15 @@ func (c *Ctx) installBuiltins(ev *spec.Eval) {
 		}
 		return raw(smt.Resize(ev.Term(v), n))
 	}
+	// shape(n1, n2, ...): an input of the parameter's type, all scalar leaves
+	// symbolic, slices of the given concrete lengths (depth-first; -1 = nil)
+	B["shape"] = func(ev *spec.Eval, a []ast.Expr) spec.TV {
+		var dims []int64
+		for _, x := range a {
+			dims = append(dims, constArg(ev, x, "slice length"))
+		}
+		return spec.TV{V: ShapeSpec{Dims: dims}}
+	}
 	// sizeof(x): size in bytes of x's static type
 	B["sizeof"] = func(ev *spec.Eval, a []ast.Expr) spec.TV {
 		v := ev.Eval(a[0])
@@ -376,6 +385,27 @@ func (c *Ctx) installBuiltins(ev *spec.Eval) {
 			return spec.TV{V: smt.BoolC(x.Obj > entry)}
 		}
 		panic(spec.EvalError{Msg: "fresh() of a value that is neither slice nor pointer"})
+	}
+	// unchanged(s): every element of slice s holds the value it held on entry
+	B["unchanged"] = func(ev *spec.Eval, a []ast.Expr) spec.TV {
+		v := ev.Eval(a[0])
+		sl, ok := v.V.(sx.Slice)
+		if !ok {
+			panic(spec.EvalError{Msg: "unchanged() of a non-slice"})
+		}
+		if sl.Obj == 0 || ev.OldHeap == nil {
+			return spec.TV{V: smt.True}
+		}
+		now := p.SliceElems(sl)
+		saved := p.Heap
+		p.Heap = ev.OldHeap
+		old := p.SliceElems(sl)
+		p.Heap = saved
+		c := smt.True
+		for i := range now {
+			c = smt.And(c, p.EqVal(now[i], old[i]))
+		}
+		return spec.TV{V: c}
 	}
 	// sameobj(a, b): two slices share their backing array
 	B["sameobj"] = func(ev *spec.Eval, a []ast.Expr) spec.TV {
